@@ -141,6 +141,11 @@ theorem after_each_step_any (s : TdfSt) (ops1 ops2 : List Op) (h : s.disk = s.vi
     (runOps s ops1).disk = (runOps s ops1).view ∧ (runOps s (ops1 ++ ops2)).disk = (runOps s (ops1 ++ ops2)).view :=
   ⟨history_nothing_pending_any s ops1 h, history_nothing_pending_any s _ h⟩
 
+/-- … so at every point of every history from ANY state, what the open object reads for an entry is what lies on disk in that range -/
+theorem object_reads_disk_any (s : TdfSt) (ops : List Op) (e : Entry) (h : s.disk = s.view) :
+    payloadOf (runOps s ops) e = readAt (runOps s ops).disk e.off.toNat e.size.toNat := by
+  rw [history_nothing_pending_any s ops h]; rfl
+
 /-- what `__enter__` hands out has nothing pending, whatever the bytes are -/
 theorem open_nothing_pending (d : Bytes) (s : TdfSt) (h : openFile d = some s) : s.disk = s.view ∧ s.disk = d := by
   simp only [openFile] at h
